@@ -83,6 +83,11 @@ def writers (t : List Site) : List (String × String × String) :=
       || s.2.2.2.1 = "open-unknown" || s.2.2.2.1 = "effect-module" || s.2.2.2.1 = "inplace-output"
       || (s.2.2.2.1 = "open-path" && !(s.2.2.2.2 = "rb" || s.2.2.2.2 = "r"))).map fun s => (s.1, s.2.1, s.2.2.2.1)
 
+/-- the programs the library ships — tool modules `(file, "main" | "__main__" | "")` and console scripts `(name, target)` as
+    read off the source tree and pyproject.toml by harness/extract_more.py — are the envelope decrypter and nothing else -/
+def onlyDecrypter (tools scripts : List (String × String)) : Bool :=
+  tools = [("tools/envelope.py", "main")] && scripts = [("envelope-decrypt", "dissect.hypervisor.tools.envelope:main")]
+
 end Hv.Effects
 
 namespace Hv.Effects
